@@ -418,4 +418,108 @@ Section Steps.
       split; [reflexivity|exact K7].
     Qed.
   End B.
+
+  (* ---- the span-1 fast path (no distribute_loop inside; it has to keep the class for the batches after it) *)
+  Lemma fcl_set_base t v : fit_content_limit inner (set_base t v) = fit_content_limit inner t.
+  Proof. reflexivity. Qed.
+
+  Lemma span1_item_ok it t : iok it -> tk_ok t -> tk_ok (span1_item contrib inner avail it t).
+  Proof.
+    intros Hit Ht. destruct (contrib_fin it Hit) as [C1 [C2 _]].
+    pose proof (ims_fin it _ Hit (deflim_fin t Ht)) as C4. pose proof (fcl_fp inner t Hin Ht) as C5.
+    unfold span1_item. cbv zeta. rewrite !fcl_set_base.
+    set (mc := min_content_contribution contrib it) in *. set (xc := max_content_contribution contrib it) in *.
+    set (ims := intrinsic_minimum_space contrib avail it (definite_limit inner (maxf t))) in *.
+    set (fl := fit_content_limit inner t) in *. clearbody mc xc ims fl.
+    destruct t as [k c mn mx o b g i bp lp ig]. unfold tk_ok in Ht. cbn [base_size growth_limit incurred base_planned limit_planned minf maxf] in Ht.
+    destruct Ht as [Hb [Hg [Hi [Hi0 [Hbp [Hlp [Hmn Hmx]]]]]]].
+    destruct b, i, bp, lp, mc, xc, ims; simpl in Hb, Hi, Hbp, Hlp, C1, C2, C4; try contradiction.
+    assert (Hfl : fl = PInf \/ exists q, fl = Fin q).
+    { destruct C5 as [C5|C5]; [right; destruct fl; simpl in C5; try contradiction; eauto|left; exact C5]. }
+    assert (Hgg : g = PInf \/ exists q, g = Fin q).
+    { destruct Hg as [Hg|Hg]; [right; destruct g; simpl in Hg; try contradiction; eauto|left; exact Hg]. }
+    clear C5 Hg.
+    destruct Hfl as [->|[qf ->]]; destruct Hgg as [->|[qg ->]]; destruct (it_scroll it); destruct inner; destruct mn; destruct mx;
+      simpl in Hmn, Hmx; unfold tk_ok, fin_or_pinf; simpl; unfold x_max, x_min; simpl;
+      repeat match goal with |- context [if ?c then _ else _] => destruct c; simpl end;
+      repeat split; auto; try tauto; try (left; exact I); try (right; reflexivity).
+  Qed.
+
+  Lemma span1_finish_ok ts : Forall tk_ok ts -> Forall tk_ok (span1_finish ts).
+  Proof.
+    intro Hts. apply Forall_map. eapply Forall_impl; [|exact Hts]. intros t Ht. destruct t. unfold x_max. tk_crush; unfold x_max; tk_crush.
+  Qed.
+
+  Lemma update_nth_ok (f : track XQ -> track XQ) : (forall t, tk_ok t -> tk_ok (f t)) ->
+    forall ts n, Forall tk_ok ts -> Forall tk_ok (update_nth n f ts).
+  Proof.
+    intro Hf. induction ts as [|t r IH]; intros n Hts; [destruct n; exact Hts|]. inversion Hts; subst.
+    destruct n; cbn [update_nth]; constructor; auto.
+  Qed.
+
+  Lemma span1_batch_ok batch ts : Forall iok batch -> Forall tk_ok ts -> Forall tk_ok (span1_batch contrib inner avail batch ts).
+  Proof.
+    intros Hb Hts. unfold span1_batch. apply span1_finish_ok.
+    match goal with |- Forall _ (fold_left ?f _ _) => destruct (fold_inv iok f f) with (batch := batch) (ts := ts) as [_ K]; auto end.
+    intros ts0 it Hts0 Hit. split; [reflexivity|]. apply update_nth_ok; [|exact Hts0]. intros t Ht. apply span1_item_ok; assumption.
+  Qed.
+
+  Lemma process_batch_ok ffs batch isf ts : Forall iok batch -> Forall tk_ok ts ->
+    process_batch_f contrib inner avail e1 e2 e3 ffs batch isf ts = process_batch contrib inner avail ffs batch isf ts /\
+    Forall tk_ok (process_batch contrib inner avail ffs batch isf ts).
+  Proof.
+    intros Hb Hts. unfold process_batch_f, process_batch. cbv zeta.
+    destruct (negb isf && Nat.eqb _ 1); [split; [reflexivity|apply span1_batch_ok; assumption]|].
+    apply general_batch_ok; assumption.
+  Qed.
+
+  Lemma batch_loop_ok : forall fuel ffs off items ts, Forall iok items -> Forall tk_ok ts ->
+    batch_loop_f contrib inner avail e1 e2 e3 fuel ffs off items ts = batch_loop contrib inner avail fuel ffs off items ts /\
+    Forall tk_ok (batch_loop contrib inner avail fuel ffs off items ts).
+  Proof.
+    induction fuel as [|f IH]; intros ffs off items ts Hit Hts; cbn [batch_loop_f batch_loop]; [split; [reflexivity|exact Hts]|].
+    destruct (next_batch off items) as [[next isf]|]; [|split; [reflexivity|exact Hts]]. cbv zeta.
+    assert (Hb : Forall iok (firstn (next - off) (skipn off items))) by (apply Forall_firstn_sub, Forall_skipn_sub; exact Hit).
+    destruct (process_batch_ok ffs _ isf ts Hb Hts) as [E K]. rewrite E.
+    destruct isf; [split; [reflexivity|exact K]|]. apply IH; assumption.
+  Qed.
+
+  Theorem resolve_intrinsic_fuel_independent items ts : Forall iok items -> Forall tk_ok ts ->
+    resolve_intrinsic_f contrib inner avail e1 e2 e3 items ts = resolve_intrinsic_track_sizes contrib inner avail items ts.
+  Proof.
+    intros Hit Hts. unfold resolve_intrinsic_f, resolve_intrinsic_track_sizes, resolve_intrinsic_fuelled. cbv zeta.
+    assert (Hs : Forall iok (sort_items items)).
+    { apply Forall_forall. intros x Hx. rewrite Forall_forall in Hit. apply Hit. apply In_sort_items. exact Hx. }
+    destruct (batch_loop_ok (intrinsic_fuel items) (fsum (map flex_factor ts)) 0 (sort_items items) ts Hs Hts) as [E _].
+    rewrite E. reflexivity.
+  Qed.
 End Steps.
+
+Lemma resolve_intrinsic_f_0 {T} `{Num T} contrib inner avail (items : list (item T)) tracks :
+  resolve_intrinsic_f contrib inner avail 0 0 0 items tracks = resolve_intrinsic_track_sizes contrib inner avail items tracks.
+Proof. reflexivity. Qed.
+
+(* boolean tests of the classes, for the computed examples *)
+Definition sfn_okb (f : sfn XQ) : bool :=
+  match f with
+  | SLength v | SPercent v | SFitPx v | SFitPct v => is_fin v
+  | SFr v => is_fin v && Qle_bool 0 (val v)
+  | _ => true
+  end.
+Definition tk_okb (t : track XQ) : bool :=
+  is_fin (base_size t) && (is_fin (growth_limit t) || is_pinf (growth_limit t)) && is_fin (incurred t) && Qle_bool 0 (val (incurred t))
+  && is_fin (base_planned t) && is_fin (limit_planned t) && sfn_okb (minf t) && sfn_okb (maxf t).
+Lemma sfn_okb_sound f : sfn_okb f = true -> sfn_ok f.
+Proof.
+  destruct f; simpl; auto using is_fin_finite. intro Hb. apply andb_true_iff in Hb. destruct Hb as [H1 H2].
+  split; [apply is_fin_finite; exact H1|apply Qle_bool_iff; exact H2].
+Qed.
+Lemma tk_okb_sound l : forallb tk_okb l = true -> Forall tk_ok l.
+Proof.
+  intro Hb. apply Forall_forall. intros t Hin. rewrite forallb_forall in Hb. specialize (Hb t Hin). unfold tk_okb in Hb.
+  repeat (apply andb_true_iff in Hb; destruct Hb as [Hb ?]).
+  unfold tk_ok. repeat split; try (apply is_fin_finite; assumption); try (apply Qle_bool_iff; assumption); try (apply sfn_okb_sound; assumption).
+  match goal with Ho : (_ || _)%bool = true |- _ => apply orb_true_iff in Ho; destruct Ho as [Ho1|Ho2] end.
+  - left. apply is_fin_finite. exact Ho1.
+  - right. destruct (growth_limit t); simpl in Ho2; try discriminate. reflexivity.
+Qed.
